@@ -1,7 +1,7 @@
 (* C07 - Cancellation never hangs the injector nor yields a silent partial result. *)
 From Coq Require Import List Arith Bool.
 Import ListNotations.
-Require Import Sem2 Safe Fault.
+Require Import Sem2 Safe Live Fault Term.
 
 (* The full statement is refuted on the model of the code as it is, by two mechanisms (known findings KF-C07-1, KF-C07-2).
    Program: A (node 0) async in a goroutine, B(a) (node 1) on the main thread; the injector has no error result, so the
@@ -41,3 +41,19 @@ Proof.
   exists [LCancel; LWaitCtx 1; LEnter 0; LExitOk 0; LClose 0; LNext 0; LFin 0]. eexists. split; [vm_compute; reflexivity|]. split; reflexivity.
 Qed.
 Print Assumptions C07_refuted_silent_partial.
+
+(* Injectors WITH an error result: cancellation before or at any point of the call (LCancel anywhere in ls, first included)
+   together with any provider failures never hangs the injector: every execution in which nothing more can happen
+   has the injector returned ... *)
+Theorem C07_with_error_result_returns : forall p rank ls s, wfl p rank -> 0 < length (p_threads p) -> p_reterr p = true ->
+  run p (init p) ls = Some s -> (forall l, l <> LCancel -> step p s l = None) -> exists e, nth_error (s_thr s) 0 = Some (TDone e).
+Proof. exact main_returns. Qed.
+Print Assumptions C07_with_error_result_returns.
+
+(* ... and a nil error means a completely constructed result: every thread finished normally and every provider of the
+   injector returned (so by C02 the returned value is the sequential one); otherwise the error is non-nil. *)
+Theorem C07_with_error_result_complete : forall p rank ls s, wfl p rank -> 0 < length (p_threads p) -> p_reterr p = true ->
+  run p (init p) ls = Some s -> nth_error (s_thr s) 0 = Some (TDone None) ->
+  (forall t x, nth_error (s_thr s) t = Some x -> x = TDone None) /\ (forall t j it, item_at p t j = Some it -> exited s (it_node it)).
+Proof. exact nil_error_means_complete. Qed.
+Print Assumptions C07_with_error_result_complete.
